@@ -849,6 +849,64 @@ theorem deleteBy_preserves {T : Tree} (h : T.WF) {db : DB} (inv : NoOrphan T db)
 
 /-! ## histories -/
 
+/-! ### destroy refused by a restriction -/
+
+theorem reverse_anc_head {T : Tree} (h : T.WF) (m : Nat) :
+    ∃ rest, (T.anc m).reverse = T.root m :: rest := by
+  induction m using h.induction with
+  | root c hc => exact ⟨[], by simp [anc_root h hc, root_self h hc]⟩
+  | step c p hp ih =>
+    obtain ⟨rest, hr⟩ := ih
+    exact ⟨rest ++ [c], by rw [anc_cons h hp, List.reverse_cons, hr, root_cons h hp]; rfl⟩
+
+theorem guardedDelete_unblocked (i : Nat) (blocked : Nat → Bool) :
+    ∀ (l : List Nat) (db : DB), (∀ a, a ∈ l → blocked a = false) →
+      guardedDelete i blocked l db = (deleteDown i l db, true) := by
+  intro l
+  induction l with
+  | nil => intro db _; rfl
+  | cons x rest ih =>
+    intro db hb
+    simp only [guardedDelete, hb x (List.mem_cons_self ..), deleteDown]
+    exact ih _ (fun a ha => hb a (List.mem_cons_of_mem _ ha))
+
+/-- a restriction on the root level refuses before any DELETE (the parent is destroyed first) -/
+theorem destroyGuarded_root_blocked {T : Tree} (h : T.WF) (db : DB) (m i : Nat) (blocked : Nat → Bool)
+    (hb : blocked (T.root m) = true) : destroyGuarded T db m i blocked = (db, .integrity) := by
+  have hw : Extracted.destroyWalksParents = true := rfl
+  have hp : Extracted.destroyParentFirst = true := rfl
+  obtain ⟨rest, hr⟩ := reverse_anc_head h m
+  simp [destroyGuarded, deleteOrder, hw, hp, hr, guardedDelete, hb]
+
+theorem destroyGuarded_unblocked (T : Tree) (db : DB) (m i : Nat) (blocked : Nat → Bool)
+    (hb : ∀ a, a ∈ T.anc m → blocked a = false) :
+    (destroyGuarded T db m i blocked).2 = .ok ∧
+    ∀ c j, (destroyGuarded T db m i blocked).1 c j = destroyInst T db m i c j := by
+  have hw : Extracted.destroyWalksParents = true := rfl
+  have hall : ∀ a, a ∈ deleteOrder T m → blocked a = false := by
+    intro a ha
+    apply hb
+    simp only [deleteOrder, hw, if_true] at ha
+    split at ha
+    · exact List.mem_reverse.mp ha
+    · exact ha
+  simp only [destroyGuarded, guardedDelete_unblocked i blocked _ db hall, if_true, true_and]
+  intro c j
+  simp only [destroyInst, hw, destroyG_spec, deleteDown_spec, deleteOrder, if_true]
+  split <;> simp
+
+theorem destroyRootBlocked_noop {T : Tree} (h : T.WF) {db : DB} (inv : NoOrphan T db) (e i : Nat) :
+    (destroyGuardedVia T db e i (fun a => a == T.root e)).1 = db := by
+  unfold destroyGuardedVia
+  cases hg : get T db e i with
+  | ok m =>
+    have hroot : T.root e = T.root m := root_of_mem h m e (get_ok_inv h inv hg).2.1
+    simp only
+    rw [destroyGuarded_root_blocked h db m i _ (by simp [hroot])]
+  | notFound => rfl
+  | keyError => rfl
+
+
 theorem step_preserves {T : Tree} (h : T.WF) {db : DB} (inv : NoOrphan T db) (op : Op) :
     NoOrphan T (step T db op).1 := by
   cases op with
@@ -884,11 +942,47 @@ theorem step_preserves {T : Tree} (h : T.WF) {db : DB} (inv : NoOrphan T db) (op
     | keyError => exact inv
   | deleteMany c f => exact deleteMany_preserves h inv c f
   | deleteBy c kvs => exact deleteBy_preserves h inv c kvs
+  | destroyRootBlocked e i =>
+    simp only [step]
+    rw [destroyRootBlocked_noop h inv e i]
+    exact inv
 
 theorem run_preserves {T : Tree} (h : T.WF) (ops : List Op) : ∀ db, NoOrphan T db → NoOrphan T (run T ops db) := by
   induction ops with
   | nil => intro db inv; exact inv
   | cons op rest ih => intro db inv; exact ih _ (step_preserves h inv op)
+
+/-! ## several connections -/
+
+theorem mrun_preserves {T : Tree} (h : T.WF) (ops : List MOp) :
+    ∀ s : MState, (∀ k, NoOrphan T (s.cur k) ∧ NoOrphan T (s.saved k)) →
+      ∀ k, NoOrphan T ((mrun T ops s).cur k) ∧ NoOrphan T ((mrun T ops s).saved k) := by
+  induction ops with
+  | nil => intro s hs; exact hs
+  | cons op rest ih =>
+    intro s hs
+    apply ih
+    intro k
+    cases op with
+    | on k0 o =>
+      simp only [mstep]
+      refine ⟨?_, (hs k).2⟩
+      by_cases hk : k = k0
+      · subst hk; simp only [if_true]; exact step_preserves h (hs k).1 o
+      · simp only [hk, if_false]; exact (hs k).1
+    | begin k0 =>
+      simp only [mstep]
+      refine ⟨(hs k).1, ?_⟩
+      by_cases hk : k = k0
+      · subst hk; simp only [if_true]; exact (hs k).1
+      · simp only [hk, if_false]; exact (hs k).2
+    | rollback k0 =>
+      simp only [mstep]
+      refine ⟨?_, (hs k).2⟩
+      by_cases hk : k = k0
+      · subst hk; simp only [if_true]; exact (hs k).2
+      · simp only [hk, if_false]; exact (hs k).1
+    | commit k0 => exact hs k
 
 /-! ## `set(**kw)` -/
 
